@@ -63,6 +63,15 @@ CONFIG = {
   "level_text": "Machine-checked theorems (Lean 4) over a model of horzcat/vertcat on column-major buffers, for any number of rows and blocks and all block shapes: whenever a literal with block entries evaluates, element (i, j) of the result is the element of the block covering (i, j) when rows are laid side by side and stacked (litGet), the result is well formed, blocks of different heights in a row and rows of different widths are rejected; the two binary kernels are characterised separately. Tied to the code by differential runs over random tilings incl. invalid ones and mixed kinds.",
   "level_note": "Trusted: Lean kernel + propext/Classical.choice/Quot.sound; harness rendering. Kind preservation holds by construction in the model (one element type); mixed kinds are rejected in the driver as in the code and checked by the correspondence.",
  },
+ "C12": {
+  "engine": "core",
+  "rule": "all 16x16 ordered kind pairs x {scalar, 1x3, 3x1, 2x2, 1x1} with values at the boundaries of both kinds (min, max, max+1, min-1, 2^24+1 for f32, fractional and out-of-range floats), every (r,c)->(r',c') reshape with at most 16 elements (equal counts; a sample of unequal counts), scalar-to-matrix fills, matrix-to-set conversions over small universes; distinct = distinct case lines",
+  "trusted": ["f64 -> f32 rounding and r64 -> f64 division are hardware operations (model parameter ConvImpl); float -> int, int -> float and f32 -> f64 are computed exactly in the model",
+              "number -> string is compared only on integers and short dyadic fractions, where Rust's Display prints the exact decimal expansion"],
+  "assumptions": ["integer magnitudes below 2^53 (literal spelling limit)", "complex -> string formatting is not modelled and not generated"],
+  "level_text": "Machine-checked theorems (Lean 4): converting an integer to any integer kind that can represent it is the identity (all 100 pairs), widening then narrowing back is the identity (including same-width signed/unsigned pairs that wrap in between), float -> integer is truncation toward zero of the exact value clamped to the target range with NaN -> 0 and always lands in the target kind, matrix conversion is elementwise and shape preserving, reshape keeps every element at its column-major linear position, a different element count is an error, kinds without a conversion are errors, matrix -> set keeps exactly the distinct elements. The exact integer views of binary64/binary32 (decode, truncate, round-to-nearest-even of integers) are part of the model, not parameters. Tied to the code by differential runs over all kind pairs and shapes.",
+  "level_note": "Trusted: Lean kernel + propext/Classical.choice/Quot.sound; hardware f64->f32 rounding; harness rendering. Known findings: the matrix converter uses a different kind table than the scalar one (C12-D1), identity annotations on rational/complex scalars are rejected (C12-D2).",
+ },
  "C15": {
   "engine": "core",
   "rule": "10 integer kinds x boundary-anchored (min, max, 0, small) start/end x {no step, zero, negative, positive step} x {inclusive, exclusive} x {immutable, mutable operands}; f32/f64 with dyadic operands (exact arithmetic) incl. literal operands; distinct = distinct case lines",
